@@ -448,3 +448,26 @@ PROPS["C12"] = {
     ],
     "min_nontrivial": {"quick": 3000, "thorough": 50000},
 }
+
+PROPS["C13"] = {
+    "level": "fault_enumeration",
+    "design_ref": "DESIGN.md §4.13",
+    "technique": "for each rapid-generated statement and store, record the fault-free storage call sequence, then inject a single error at EVERY position of it (row and batch mode); invariants over the call log and errors.Is identity of the returned error",
+    "level_text": "Exhaustive single-fault enumeration per statement: statements of every kind and access path (point reads, prefix and range scans, full scans; "
+                  "projection, ORDER BY, aggregates, LIMIT; PUT with 1 and n pairs, REMOVE, DELETE as scan-and-delete with and without LIMIT and as the "
+                  "direct-removal shortcut) are first run fault-free over an instrumented store, which records the N storage calls; then for every i in [0, N), "
+                  "in row mode and in batch mode, the run is repeated with call i (Cursor, Seek, Next, Get, Put, BatchPut, Delete or BatchDelete) returning an "
+                  "injected error. Whichever of BuildPlan / Next / Batch was running must return an error e with errors.Is(e, injected), the log must end at "
+                  "entry i (no further storage call), and the drain must not end normally with a shortened result. Fault-free legs assert that SELECT issues "
+                  "no mutating call at plan or execution time, and that statically rejected statements (C14's mutants) issue no storage call at all.",
+    "level_note": "One fault per run (no fault sequences). The faulted operation is not applied by the store. The harness stops polling at the first error, as a caller would.",
+    "rule": "rapid statements x stores (1-10 pairs) x batch size; per statement ALL fault positions x {row, batch} are enumerated. "
+            "Non-trivial = the fault-free run makes at least 3 storage calls and the faulted call is not the last one; "
+            "distinct = distinct (statement, store, batch size, mode, fault index).",
+    "assumptions": COMMON_ASSUMPTIONS,
+    "legs": [
+        {"test": "TestC13Faults", "kind": "rapid", "quick": {"checks": 500, "shards": 4, "shrink": "15s"}, "thorough": {"checks": 15000, "shards": 16}},
+        {"test": "TestC13Rejected", "kind": "rapid", "quick": {"checks": 2000, "shards": 1}, "thorough": {"checks": 50000, "shards": 4}},
+    ],
+    "min_nontrivial": {"quick": 5000, "thorough": 100000},
+}
